@@ -25,7 +25,7 @@ ASSUMPTIONS = [
     "addOnException handlers that raise are outside the domain (documented to abort the run)",
 ]
 
-PROG = P.programs(nonexc=True, multi=True, expect=True, force=True, decor=True, cleanup_depth=2, p_raise=4)
+PROG = P.programs(nonexc=True, multi=True, expect=True, force=True, decor=True, cleanup_depth=2, p_raise=4, extras=True)
 CASE = st.fixed_dictionaries({"prog": PROG, "flavour": st.sampled_from(R.FLAVOURS)})
 
 
@@ -78,7 +78,7 @@ def check(spec, clauses=("bracket", "nonexc")):
         if exc is None:
             vs.append(V("nonexc", "swallowed", "%s did not propagate out of run() (raised kinds, in order: %r)" % (
                 nonexc[0]["kind"], [(r["kind"], r["stage"]) for r in model.raised])))
-        elif not any(exc is obs["live"].raised_objs.get(r["i"]) for r in nonexc):
+        elif not any(exc is o for r in nonexc for o in obs["live"].raised_objs.get(r["i"], [])):
             vs.append(V("nonexc", "other-exception", "run() raised %r, which is not one of the raised non-Exception errors" % (exc,)))
         if flavour != "stream" and "stopTest" not in names:
             vs.append(V("nonexc", "no-stopTest-before-propagation", "stopTest not delivered before the exception left run()"))
@@ -98,7 +98,7 @@ def run_case(spec):
                 {"events": [e[0] for e in obs["events"]], "raised": repr(obs["raised"])})
 
 
-GRID_KINDS = [None, "fail", "error", "skip", "xfail", "uxsuccess", "multi", "kbi", "sysexit", "base"]
+GRID_KINDS = [None, "fail", "error", "skip", "xfail", "uxsuccess", "multi", "kbi", "sysexit", "base", "multi_nested_empty"]
 
 
 def grid_program(kinds, expect=False):
@@ -109,6 +109,8 @@ def grid_program(kinds, expect=False):
         acts = [{"a": "log", "i": next(ids)}]
         if k == "multi":
             acts.append({"a": "raise", "i": next(ids), "kind": "multi", "sub": [{"kind": "fail", "i": next(ids)}, {"kind": "error", "i": next(ids)}]})
+        elif k == "multi_nested_empty":
+            acts.append({"a": "raise", "i": next(ids), "kind": "multi", "sub": [{"kind": "multi", "i": next(ids), "sub": []}]})
         elif k is not None:
             acts.append({"a": "raise", "i": next(ids), "kind": k})
         return acts
@@ -123,7 +125,7 @@ def grid_program(kinds, expect=False):
 
 def _enum(full):
     def gen():
-        kinds = GRID_KINDS if full else [None, "fail", "skip", "kbi", "xfail"]
+        kinds = GRID_KINDS if full else [None, "fail", "skip", "kbi", "multi_nested_empty"]
         flavours = R.FLAVOURS if full else ["ext", "py26", "stream"]
         for combo in itertools.product(kinds, repeat=5):
             for fl in flavours:
